@@ -45,7 +45,7 @@ pub fn plan(prop: &str) -> Vec<Batch> {
         "C15" => vec![b("b", "C15", 40_000, 1_500_000, "release"), b("a", "C15", 5_000, 100_000, "release")],
         "C16" => vec![b("a", "C16", 10_000, 250_000, "release")],
         "C17" => vec![b("a", "C17", 60_000, 1_000_000, "release")],
-        "C18" => vec![b("c", "C18", 5_000, 120_000, "release")],
+        "C18" => vec![b("c", "C18", 3_000, 80_000, "release")],
         _ => vec![],
     }
 }
